@@ -40,6 +40,7 @@ EXPLANATION = (
     "(X3b) No strict decode / int() on peer bytes is reachable in the timer callback before the close unless covered by a handler that still closes. (X5) close() of the transport facade reaches the TCP close on every normal path. "
     "(X6) The package's own structlog processors cannot raise on a lookup."
     ' (X6, extended) augmented assignment to a mapping element loads it; tuple-unpacking a split() result and int()/float() of event content outside a try can raise.'
+    ' (X7) every call_later / call_at in the server protocols is invoked on asyncio.get_running_loop() obtained in the same function, not on a cached loop. X3 finds the timer registration also in helpers of connection_made.'
 )
 
 
@@ -113,7 +114,18 @@ def rule_x3(chk: Check) -> None:
     cm = ci.methods["connection_made"] if "connection_made" in ci.methods else None
     cb = None
     if cm is not None:
-        for c in calls(cm.node):
+        # connection_made and the helper methods it calls (the arming may be extracted)
+        scope, todo = [], [cm]
+        while todo:
+            f = todo.pop()
+            if f in scope or len(scope) > 12:
+                continue
+            scope.append(f)
+            for c in calls(f.node):
+                d0 = dotted(c.func) or ""
+                if d0.startswith("self.") and d0.count(".") == 1 and d0[5:] in ci.methods:
+                    todo.append(ci.methods[d0[5:]])
+        for c in [c_ for f in scope for c_ in calls(f.node)]:
             mc = method_call(c)
             if mc and mc[1] in ("call_later", "call_at") and len(c.args) >= 2:
                 d = dotted(c.args[1]) or ""
@@ -294,5 +306,8 @@ def run(chk: Check) -> None:
     rule_x4(chk)
     rule_x5(chk)
     rule_x6(chk)
+    from .common import timers_on_running_loop
+
+    timers_on_running_loop(chk, "X7")
     chk.trusted = ["CPython ast parser", "engine CFG / machine", "asyncio fires call_later callbacks on time and supervises the handshake of ssl= listeners (ssl_handshake_timeout default)"]
     chk.assumptions = ["an event loop is running whenever a protocol callback runs"]
